@@ -69,6 +69,9 @@ class LoopMixin:
             return "seq", SeqV(n, lambda i: PyTuple([a.elem(i), b.elem(i)]))
         if isinstance(it, Sym) and it.kind == "opt":
             return "kset", KSetV([("term", T.topkeys(it.term))])
+        if isinstance(it, Sym) and it.kind == "val":
+            t = it.term      # iteration over a JSON list value: its elements
+            return "seq", SeqV(T.vnchild(t), lambda i: Sym("val", T.vchild(t, i)))
         raise Unsupported(f"iteration over {it!r}")
 
     # ------------------------------------------------------------------ sub-exploration
